@@ -78,9 +78,13 @@ CHECKS['C06'] = dict(
          "the implementation's program text for every element tree of the stream (byte-exact correspondence), convert_value is compared "
          "at function level on all tokens over a small alphabet. Acceptance of the whole text is decided per program by the solver "
          "itself: clingo.ast.parse_string on every output, clingo grounding for wide-generator inputs (which meet the grounding hypothesis "
-         "by construction), telingo for temporal outputs. Compile-level lex_ok/safe theorems for the fragment are not proved yet: partial.",
+         "by construction), telingo for temporal outputs. Safety is proved for the core fragment: C06_core_fragment_safe -- for EVERY F0 specification whose "
+         "definitions and 'where' clauses use labels of their own clauses, every rule the compile model Cnl/Core.v emits is safe in gringo's sense "
+         "(each variable in a positive body atom, in 'V = constant', or in the condition of its choice element); that compile model is tied "
+         "byte-exactly to the implementation on generated F0 specifications in this check too, and their programs are grounded by clingo. "
+         "Outside F0 safety and syntax are decided per program: partial.",
     note="Trusted: Coq kernel; clingo/telingo as the definition of acceptance; corpus texts are only syntax-scored (their grounding hypothesis is not established).",
-    technique="Coq theorem on leaf terms + byte-exact printer correspondence + solver-in-the-loop oracle (parse, ground, telingo)",
+    technique="Coq theorems on leaf terms and on safety of the core-fragment compile model + byte-exact printer/compile-model correspondence + solver-in-the-loop oracle (parse, ground, telingo)",
     design="6.C06")
 
 CHECKS['C18'] = dict(
